@@ -122,6 +122,9 @@ def main():
     o.append("\n## Changes written by independent sub-agents, round 5 (`/verif/seeded5/<id>/`)\n")
     o.append("All four earlier changes described; asked for another clause, entry point, trait impl, wrapper, input class or boundary, thread placement, builder option, type parameter or feature interaction.\n")
     o.append(table_seeds("seeded5"))
+    o.append("\n## Changes written by independent sub-agents, round 6 (`/verif/seeded6/<id>/`, 16 properties)\n")
+    o.append("All five earlier changes described. Run after the second reviewer pass (DESIGN 8.2); time allowed sixteen of the twenty properties.\n")
+    o.append(table_seeds("seeded6"))
     rb = f"{ROOT}/seeded/ROBUSTNESS.tsv"
     if os.path.exists(rb):
         o.append("\n## Seed robustness of the concurrency-dependent catches\n")
